@@ -94,6 +94,7 @@ class Result:
                                   depth=r["depth"], wall_s=round(r["wall_s"], 1)))
 
     def violation(self, signature, msg, replay_record):
+        signature = signature.replace(" ", "")   # signatures are whitespace-free tokens of known_findings.txt
         from .replay import save_replay
         path = save_replay(self.prop, dict(property=self.prop, signature=signature, msg=msg, **replay_record))
         self.violations.append(dict(signature=signature, msg=msg, replay=path))
